@@ -44,6 +44,28 @@ type multi []string
 func (m *multi) String() string     { return strings.Join(*m, ",") }
 func (m *multi) Set(s string) error { *m = append(*m, s); return nil }
 
+// unsupported is panicked by a rewrite step that meets a construct it cannot express; see (*rw).try.
+type unsupported string
+
+func (r *rw) warn(n ast.Node, what string) {
+	fmt.Fprintf(os.Stderr, "vrewrite: %s:%d: %s left uninstrumented\n", r.file, r.fset.Position(n.Pos()).Line, what)
+	r.counts["uninstrumented"]++
+}
+
+func (r *rw) try(n ast.Node, f func() ast.Stmt) (st ast.Stmt, ok bool) {
+	defer func() {
+		if e := recover(); e != nil {
+			u, is := e.(unsupported)
+			if !is {
+				panic(e)
+			}
+			r.warn(n, string(u))
+			st, ok = nil, false
+		}
+	}()
+	return f(), true
+}
+
 func fatalf(f string, a ...any) {
 	fmt.Fprintf(os.Stderr, "vrewrite: "+f+"\n", a...)
 	os.Exit(2)
@@ -463,7 +485,7 @@ func (r *rw) rewriteFile(f *ast.File) bool {
 	astutil.Apply(f, nil, func(c *astutil.Cursor) bool {
 		switch n := c.Node().(type) {
 		case *ast.CallExpr:
-			for _, fn := range []string{"After", "Sleep", "NewTimer", "NewTicker"} {
+			for _, fn := range []string{"After", "Sleep", "NewTimer", "NewTicker", "AfterFunc"} {
 				if r.isPkgSel(n.Fun, "time", fn) {
 					st := r.site(n)
 					n.Fun = r.vs(fn)
@@ -471,8 +493,9 @@ func (r *rw) rewriteFile(f *ast.File) bool {
 					r.counts["time."+fn]++
 				}
 			}
-			if r.isPkgSel(n.Fun, "time", "AfterFunc") || r.isPkgSel(n.Fun, "time", "Tick") {
-				fatalf("%s: time.AfterFunc/Tick not supported", r.file)
+			if r.isPkgSel(n.Fun, "time", "Tick") {
+				// left as it is: it works on the virtual clock, but its deadlines are unknown to the explorer
+				fmt.Fprintf(os.Stderr, "vrewrite: %s: time.Tick is not instrumented\n", r.file)
 			}
 			// methods of sync.Mutex / RWMutex / Once / WaitGroup get the original call site
 			if sel, ok := n.Fun.(*ast.SelectorExpr); ok {
@@ -495,19 +518,25 @@ func (r *rw) rewriteFile(f *ast.File) bool {
 				r.counts["close"]++
 			}
 		case *ast.SelectStmt:
+			// Constructs the rewriter cannot express are left as they are (with a warning): they run natively on
+			// the virtual clock, only their choices are not the explorer's. Failing the build instead would turn
+			// every future change that uses one into a broken check.
 			if _, ok := c.Parent().(*ast.LabeledStmt); ok {
-				fatalf("%s:%d: labeled select not supported", r.file, r.fset.Position(n.Pos()).Line)
+				r.warn(n, "labeled select")
+			} else if st, ok := r.try(n, func() ast.Stmt { return r.rewriteSelect(n) }); ok {
+				c.Replace(st)
 			}
-			c.Replace(r.rewriteSelect(n))
 		case *ast.RangeStmt:
 			if tv, ok := r.info.Types[n.X]; ok {
 				if _, isChan := tv.Type.Underlying().(*types.Chan); isChan {
-					c.Replace(r.rewriteRange(n))
+					if st, ok := r.try(n, func() ast.Stmt { return r.rewriteRange(n) }); ok {
+						c.Replace(st)
+					}
 				}
 			}
 		case *ast.ForStmt:
 			if (n.Cond != nil && directRecv(n.Cond)) || (n.Post != nil && directRecv(n.Post)) || (n.Init != nil && directRecv(n.Init)) {
-				fatalf("%s:%d: channel receive in for header not supported", r.file, r.fset.Position(n.Pos()).Line)
+				r.warn(n, "channel receive in a for header")
 			}
 		}
 		// statement-level points
@@ -600,18 +629,18 @@ func (r *rw) rewriteSelect(s *ast.SelectStmt) ast.Stmt {
 		case *ast.ExprStmt:
 			ch, ok := recvOf(cm.X)
 			if !ok {
-				fatalf("%s: unsupported select clause", r.file)
+				panic(unsupported("select clause that is not a plain send or receive"))
 			}
 			pre = append(pre, &ast.AssignStmt{Lhs: []ast.Expr{caseVar}, Tok: token.DEFINE, Rhs: []ast.Expr{
 				&ast.CallExpr{Fun: r.vs("R"), Args: []ast.Expr{ch}},
 			}})
 		case *ast.AssignStmt:
 			if len(cm.Rhs) != 1 {
-				fatalf("%s: unsupported select clause", r.file)
+				panic(unsupported("select clause that is not a plain send or receive"))
 			}
 			ch, ok := recvOf(cm.Rhs[0])
 			if !ok {
-				fatalf("%s: unsupported select clause", r.file)
+				panic(unsupported("select clause that is not a plain send or receive"))
 			}
 			pre = append(pre, &ast.AssignStmt{Lhs: []ast.Expr{caseVar}, Tok: token.DEFINE, Rhs: []ast.Expr{
 				&ast.CallExpr{Fun: r.vs("R"), Args: []ast.Expr{ch}},
@@ -628,7 +657,7 @@ func (r *rw) rewriteSelect(s *ast.SelectStmt) ast.Stmt {
 				// required the variables to be used, nothing to add
 			}
 		default:
-			fatalf("%s: unsupported select clause %T", r.file, cm)
+			panic(unsupported(fmt.Sprintf("select clause %T", cm)))
 		}
 		args = append(args, caseVar)
 		clauses = append(clauses, &ast.CaseClause{
@@ -655,7 +684,7 @@ func (r *rw) rewriteRange(s *ast.RangeStmt) ast.Stmt {
 	switch s.X.(type) {
 	case *ast.Ident, *ast.SelectorExpr:
 	default:
-		fatalf("%s: range over a channel expression that is not a plain operand", r.file)
+		panic(unsupported("range over a channel expression that is not a plain operand"))
 	}
 	okv := r.tmpName("ok")
 	var lhs []ast.Expr
